@@ -180,9 +180,59 @@ fn block_event(ctx: &SimCtx, rng: &mut impl Rng, start: usize, len: usize) -> Si
     ev
 }
 
+/// The block finder alone (hook H2) on explicit occupancies: every (start, length) block, unions of blocks,
+/// complements, random sets.  Record: occupied wires and the half-open ranges returned.
+fn ranges_cases(runner: &mut Runner, rng: &mut impl Rng, thorough: bool) {
+    let mut emit = |runner: &mut Runner, kind: &str, occ: Vec<bool>| {
+        if !runner.wants() {
+            runner.n += 1;
+            return;
+        }
+        let wires: Vec<usize> = (0..256).filter(|&w| occ[w]).collect();
+        let base = obj(vec![("fam", json!("ranges")), ("kind", json!(kind)), ("occ", json!(wires)),
+                            ("occupancy", json!(if wires.len() == 256 { "full".to_string() } else { wires.len().to_string() })), ("pad_tie", json!(0))]);
+        runner.case(base, move || {
+            let arr: Vec<Option<Vec<f64>>> = occ.iter().map(|&o| if o { Some(vec![0.0]) } else { None }).collect();
+            let arr: [Option<Vec<f64>>; 256] = arr.try_into().unwrap();
+            let r = alpha_g_physics::verif::contiguous_ranges(&arr);
+            obj(vec![("verdict", json!("ok")), ("ranges", json!(r.iter().map(|&(a, b)| vec![a, b]).collect::<Vec<_>>()))])
+        });
+    };
+    let step = if thorough { 1 } else { 9 };
+    for len in (1..=256usize).step_by(step) {
+        for start in (0..256usize).step_by(if thorough { 1 } else { 37 }).chain([0, 255, 256 - len.min(256) / 2, (256 - len) % 256]) {
+            let mut occ = vec![false; 256];
+            for j in 0..len {
+                occ[(start + j) % 256] = true;
+            }
+            emit(runner, "block", occ);
+        }
+    }
+    for _ in 0..(if thorough { 3000 } else { 150 }) {
+        let p: f64 = *[0.02, 0.2, 0.5, 0.8, 0.98].choose(rng).unwrap();
+        let mut occ: Vec<bool> = (0..256).map(|_| rng.gen_bool(p)).collect();
+        // force interesting seams
+        match rng.gen_range(0..4) {
+            0 => { occ[0] = true; occ[255] = true; }
+            1 => { occ[0] = true; occ[255] = false; }
+            2 => { occ[0] = false; occ[255] = true; }
+            _ => {}
+        }
+        emit(runner, "random", occ);
+    }
+    emit(runner, "empty", vec![false; 256]);
+    emit(runner, "full", vec![true; 256]);
+    for hole in [0usize, 1, 128, 254, 255] {
+        let mut occ = vec![true; 256];
+        occ[hole] = false;
+        emit(runner, "full-but-one", occ);
+    }
+}
+
 pub fn run(runner: &mut Runner, data_dir: &str, seed: u64, thorough: bool) {
     let ctx = SimCtx::new(data_dir);
     let mut rng = rng_from(seed, 13);
+    ranges_cases(runner, &mut rng, thorough);
     let all: Vec<usize> = (1..32).collect();
     let few: Vec<usize> = vec![1, 7, 16, 31];
     let nsim = if thorough { 60 } else { 5 };
